@@ -25,7 +25,7 @@ LEVEL = "exploration"
 def plan(tier):
     if tier == "thorough":
         return dict(rounds=320, examples_per_round=20, wall_cap=3300, job_timeout=3000)
-    return dict(rounds=64, examples_per_round=12, wall_cap=400, job_timeout=900)
+    return dict(rounds=64, examples_per_round=16, wall_cap=400, job_timeout=900)
 
 
 @st.composite
